@@ -63,6 +63,14 @@ def main():
     subprocess.run(["git", "-C", VERIF, "checkout", "-q", "--", "evidence"], check=False, capture_output=True)
     bad = [r for r in results if r[2] != "killed"]
     print(f"{len(results) - len(bad)}/{len(results)} killed")
+    if not args.name and not args.list:
+        import json
+
+        path = os.path.join(VERIF, "tools", "MUTANTS-RESULTS.json")
+        old = json.load(open(path)) if os.path.exists(path) else {}
+        for prop, name, status in results:
+            old[f"{prop}:{name}"] = status
+        json.dump(old, open(path, "w"), indent=1, sort_keys=True)
 
 
 if __name__ == "__main__":
